@@ -719,6 +719,11 @@ class Interp:
             else:
                 # method of a concrete builtin value
                 args = [self.eval(a, frame) for a in e.args]
+                if isinstance(recv, (list, dict)) and meth in ("append", "extend", "insert", "pop", "remove", "clear", "get", "setdefault", "update", "copy", "index", "count", "keys", "values", "items"):
+                    try:
+                        return getattr(recv, meth)(*args)
+                    except Exception as ex:  # pylint: disable=W0718
+                        raise Raised(type(ex).__name__)
                 if any(isinstance(a, Residual) for a in args):
                     return Residual(f"{txt(recv)}.{meth}({', '.join(txt(a) for a in args)})")
                 try:
